@@ -436,6 +436,37 @@ fn finish(prop: &str, tier: &str, engine: &str, stats: Stats, failures: Vec<Fail
 fn replay(path: &str) -> i32 {
     let s = std::fs::read_to_string(path).expect("replay file");
     let v: Value = serde_json::from_str(&s).expect("json");
+    let fam = v["family"].as_str().unwrap_or("");
+    if fam == "F-DEEP" {
+        println!("F-DEEP case: {} (recorded: {})", v["program"], v["detail"]);
+        println!("re-run with: mc deep <kind> <depth> <width> '<config key>'  (kind and depth are in the lines above)");
+        return 0;
+    }
+    if fam.starts_with("E3-") {
+        return sched::replay(v["program"].as_str().unwrap(), v["detail"].as_str().unwrap_or(""));
+    }
+    if fam.starts_with("E2-") {
+        // re-generate the scenario space of the property and execute only the recorded scenario, verbosely
+        std::env::set_var("MC_ONLY_DESC", v["program"].as_str().unwrap());
+        let prop = v["property"].as_str().unwrap();
+        let mut stats = Stats::default();
+        let _ = match prop {
+            "C13" => cli::c13(true, &mut stats),
+            "C14" => cli::c14(true, &mut stats),
+            "C15" => {
+                let mut x = cli::c15(true, &mut stats);
+                x.extend(cli::c15_sections(&mut stats));
+                x
+            }
+            "C16" => cli::c16(true, &mut stats),
+            "C17" => cli::c17(true, &mut stats),
+            "C18" => cli::c18(true, &mut stats),
+            "C20" => cli::c20(true, &mut stats),
+            _ => vec![],
+        };
+        println!("recorded: class={} detail={}", v["class"], v["detail"]);
+        return 0;
+    }
     let text = v["program"].as_str().unwrap();
     let c = cfg::Cfg::from_key(v["config"].as_str().unwrap()).expect("config key");
     let w = v["width"].as_u64().map(|x| x as usize).unwrap_or(usize::MAX);
